@@ -668,7 +668,12 @@ func (s *DBRPNode) Format(buf *bytes.Buffer, indent string, onNewLine bool) {
 	buf.WriteString(indent)
 	buf.WriteString(TokenDBRP.String())
 	buf.WriteByte(' ')
-	buf.WriteString(s.DBRP())
+	// Write the names as reference literals (a double quote in a name must be escaped).
+	db := ReferenceNode{Reference: s.DB.Reference}
+	db.Format(buf, "", false)
+	buf.WriteByte('.')
+	rp := ReferenceNode{Reference: s.RP.Reference}
+	rp.Format(buf, "", false)
 }
 
 func (n *DBRPNode) String() string {
